@@ -272,3 +272,11 @@ pub fn remove_unit(is_row: bool, c: usize, r: usize) {
     inv(&t);
     end_reached!();
 }
+
+/// The same removal on an array whose buffer is far larger than its contents (capacity 64).
+pub fn remove_tok_bigcap(mode: u8, c: usize, r: usize) {
+    unsafe {
+        CAP_OVERRIDE = 64;
+    }
+    remove_tok(mode, c, r, false, false, 0);
+}
